@@ -529,6 +529,19 @@ def _ix(G, params):
     return r
 
 
+def _ix_generic_class(G, param):
+    """G[param] for a user-defined Generic class, keeping the argument as written (see _ix)."""
+    r = G[param]
+    if t.get_args(r)[0] is not param:
+        w = getattr(getattr(t, '_generic_class_getitem', None), '__wrapped__', None)
+        if w is None:
+            raise OutOfVocab('typing does not keep the arguments as written')
+        r = w(G, param)
+        if t.get_args(r)[0] is not param:
+            raise OutOfVocab('typing does not keep the arguments as written')
+    return r
+
+
 def _flat_union_args(alts):
     out = []
     for a in alts:
@@ -673,7 +686,7 @@ def _concretise_type(T: dict, sp: int, lit_ok: bool = True) -> t.Any:
         E = sub(T['e'])
         if isinstance(E, (dict, tuple)):
             raise OutOfVocab('type literal as a type argument')
-        return _ptypes.ValueOrList[E]
+        return _ix_generic_class(_ptypes.ValueOrList, E)
     if k == 'ndarray':
         if _np is None:
             raise OutOfVocab('numpy missing')
